@@ -506,6 +506,8 @@ pub fn run(tier: Tier) -> Run {
     let mut bufs = buffers(&[0x00, 0x02, 0xFF], tier.pick(6, 8));
     // strings with complete and incomplete multi-byte sequences
     bufs.extend(buffers(&[0x00, 0xC3, 0xA9], tier.pick(5, 6)).into_iter().filter(|b| b.iter().any(|&x| x >= 0x80)));
+    // bytes on which word-at-a-time zero-byte tricks misfire: 0x01 next to a NUL, 0x80 / 0x81
+    bufs.extend(buffers(&[0x00, 0x01, 0x80, 0x81], tier.pick(5, 6)).into_iter().filter(|b| b.iter().any(|&x| x != 0) && b.len() >= 2));
     bufs.push(b"ok\0".to_vec());
     bufs.push(b"ok\0\0".to_vec());
     bufs.push(b"abcd\0\0\0\0".to_vec());
